@@ -391,7 +391,7 @@ def run(rep: Report) -> None:
     rep.rule("R12.2", "dispatch matrix: for each ordered pair over {Quantity, Level, Measurement}, a == b and b == a reduce "
              "(through isinstance arms and Python's reflected fallback on NotImplemented) to the same comparison of the same "
              "normalised operands", floor=9)
-    rep.rule("R12.3", "hash respects equality: __hash__ does not hash a raw field that __eq__ normalises before comparing", floor=1)
+    rep.rule("R12.3", "hash respects equality: __hash__ does not hash a raw field that __eq__ normalises before comparing (Quantity; Level and Measurement stay unhashable)", floor=3)
     rep.rule("R12.4", "Quantity is totally ordered by __eq__ and __lt__ (functools.total_ordering or four explicit methods); both "
              "return NotImplemented on the dimension gate and on ConversionNotFound", floor=4)
     rep.rule("R12.6", "every ordering method compares with the operator it denotes (no < inside __ge__)", floor=5)
@@ -463,6 +463,24 @@ def run(rep: Report) -> None:
     rep.check("R12.3", "Quantity.__hash__", not contradiction,
               f"__eq__ normalises its operands ({', '.join(normalisers)}) before comparing magnitudes, but __hash__ hashes the raw "
               f"fields {hashed}: 1 * (Kilo * Meter) == 1000 * Meter yet their hashes differ", qh.where())
+
+    # ... and the other two kinds of value that compare equal to quantities: a Level equals the quantity it denotes and an equal
+    # level of another logarithmic unit, a Measurement equals whatever its interval overlaps.  Today both are unhashable
+    # (defining __eq__ switches the inherited __hash__ off); a __hash__ over their raw fields breaks the contract at once
+    for cname in ("Level", "Measurement"):
+        cc = prog.cls(cname)
+        hq = cc.methods.get("__hash__")
+        if hq is None and "__hash__" not in cc.aliases:
+            rep.ok("R12.3", f"{cname}.__hash__", note="unhashable: defines __eq__ and no __hash__")
+            continue
+        hfi = prog.functions.get(hq) if hq else None
+        h_norm = hfi is not None and any(isinstance(n, ast.Call) and isinstance(n.func, ast.Attribute) and n.func.attr in ("quantify", "unprefixed", "in_unit")
+                                         for n in ast.walk(hfi.node))
+        h_fields = sorted({n.attr for n in ast.walk(hfi.node) if isinstance(n, ast.Attribute) and isinstance(n.value, ast.Name) and n.value.id == "self"}) if hfi else []
+        rep.check("R12.3", f"{cname}.__hash__", h_norm and "magnitude" not in h_fields and "uncertainty" not in h_fields,
+                  f"{cname}.__eq__ equates a {cname} with values of another representation (the quantity it denotes, a level of another unit, an overlapping "
+                  f"interval), but {cname}.__hash__ hashes its own raw fields {h_fields}: 100 W == 20 dBW yet their hashes differ, a set keeps both",
+                  hfi.where() if hfi else f"{cc.path}:{cc.node.lineno}")
 
     # R12.4
     qc = prog.cls("Quantity")
